@@ -244,6 +244,25 @@ def extra_obligations(mods, tier, seed):
                     "where": f"statement kind '{name}' is translated or rejected with an error (observed: {verdict})",
                     "time": round(time.time() - t1, 3), "replay": {"script": src, "observed": verdict, "output_tail": cpp[-300:]},
                     "replay_confirmed": not ok})
+    # (2a) marker scripts: every marked statement is in the firmware text (or the script is rejected)
+    import re as _re
+    from contracts.c07_markers import MARKER_SCRIPTS
+    for mname, msrc in MARKER_SCRIPTS.items():
+        t1 = time.time()
+        want = sorted(set(_re.findall(r"'(m\d+)'", msrc))) + sorted(set(_re.findall(r"sleep\((\d+)\)", msrc)))
+        try:
+            cpp = E.emit(P.parse(msrc))
+            missing = [w for w in want if (f'"{w}"' not in cpp if w.startswith("m") else f"delay({w})" not in cpp)]
+            verdict = "all-present" if not missing else "vanished"
+        except (ValueError, SyntaxError) as ex:
+            verdict, cpp, missing = "rejected", str(ex), []
+        except Exception as ex:
+            verdict, cpp, missing = "crashed", f"{type(ex).__name__}: {ex}", []
+        ok = verdict in ("all-present", "rejected")
+        out.append({"name": f"C07/no-silent-drop/marked-statements/{mname}", "status": "discharged" if ok else "sat", "backend": "enum",
+                    "where": f"script '{mname}': each of its {len(want)} marked statements is in the firmware text, or the script is rejected (observed: {verdict})",
+                    "time": round(time.time() - t1, 3), "replay": {"script": msrc, "observed": verdict, "missing_markers": missing, "output_tail": cpp[-300:]},
+                    "replay_confirmed": not ok})
     # (2b) every statement-form device method / Core helper of the host API, at every nesting the dispatcher distinguishes: the call
     #      line is translated (the firmware text changes when the line is removed) or rejected - it never vanishes
     import inspect
